@@ -493,3 +493,43 @@ rt_arm("offsub", "run_mod", r"&ImplPrimitive::OffSub\(n\)", ["C07", "C02"], [WF1
        hints=["let s = old(env).rt.stack@; let a = ops@[0].sig.args as int;",
               "if a >= n { assert(below(s, 0) =~= s); assert(top(s, 0) =~= Seq::<Value>::empty()); }"],
        sig=RTSIGN, desc="off_n F : copies of the top n values are kept beneath F's results (content shown for n <= a; height for all n)")
+
+# =====================================================================
+# run.rs stack helpers whose bodies Verus accepts: here the helper contract the shim ASSUMES (the
+# `external_body` twin above) is PROVED on the real body, unbounded — the E3 obligations on the same
+# helpers stay as a cross-check.  The extracted fn is renamed `<name>_real`.
+# =====================================================================
+R3ERR = [("R3", r"self\.error\(verif_msg\(\)\)", "self.error(verif_msg())", "error text dropped")]
+U(id="C07.e2.helper.require_height", props=["C07", "C02", "C11"], kind="fn", file=RUN, impl=UIUAIMPL, impl_name="Uiua", fn="require_height", name="require_height_real",
+  target="impl Uiua", ret="r",
+  ensures=["r.is_ok() <==> self.rt.stack@.len() >= n", "r.is_ok() ==> r.unwrap() == self.rt.stack@.len() - n"],
+  desc="require_height(n): Ok(len - n) iff len >= n (proved on the real body, any depth)")
+U(id="C07.e2.helper.push", props=["C07", "C02"], kind="fn", file=RUN, impl=UIUAIMPL, impl_name="Uiua", fn="push", name="push_real",
+  target="impl Uiua", rewrites=R6_INTO, head_rewrites=[("R6", r"<V: Into<Value>>", "", "generic conversion parameter -> shim type"), ("R6", r"val: V", "val: Value", "generic conversion parameter -> shim type")],
+  ensures=["final(self).rt.stack@ == old(self).rt.stack@.push(val)", "final(self).rt.under_stack@ == old(self).rt.under_stack@"],
+  desc="push appends exactly one value (proved on the real body)")
+U(id="C07.e2.helper.push_under", props=["C04", "C02"], kind="fn", file=RUN, impl=UIUAIMPL, impl_name="Uiua", fn="push_under", name="push_under_real",
+  target="impl Uiua",
+  ensures=["final(self).rt.under_stack@ == old(self).rt.under_stack@.push(val)", "final(self).rt.stack@ == old(self).rt.stack@"],
+  desc="push_under appends exactly one value to the context stack (proved on the real body)")
+U(id="C07.e2.helper.copy_nth", props=["C07", "C02"], kind="fn", file=RUN, impl=UIUAIMPL, impl_name="Uiua", fn="copy_nth", name="copy_nth_real",
+  target="impl Uiua", ret="r", requires=["n < usize::MAX"],
+  rewrites=[("R6", r"self\.require_height\(", "self.require_height_real(", "callee is the proved twin")],
+  ensures=["r.is_ok() <==> self.rt.stack@.len() > n", "r.is_ok() ==> r.unwrap() == self.rt.stack@[self.rt.stack@.len() - 1 - n]"],
+  desc="copy_nth(n): a copy of the value n below the top (proved on the real body)")
+U(id="C07.e2.helper.stack_height", props=["C07", "C02"], kind="fn", file=RUN, impl=UIUAIMPL, impl_name="Uiua", fn="stack_height", name="stack_height_real",
+  target="impl Uiua", ret="r", ensures=["r == self.rt.stack@.len()"], desc="stack_height is the length of the stack")
+U(id="C07.e2.helper.pop_n", props=["C07", "C02"], kind="fn", file=RUN, impl=UIUAIMPL, impl_name="Uiua", fn="pop_n", name="pop_n_real",
+  target="impl Uiua", ret="r",
+  rewrites=[("R6", r"self\.require_height\(", "self.require_height_real(", "callee is the proved twin")],
+  ensures=["r.is_ok() <==> old(self).rt.stack@.len() >= n",
+           "r.is_ok() ==> r.unwrap()@ =~= top(old(self).rt.stack@, n as int) && final(self).rt.stack@ =~= below(old(self).rt.stack@, n as int)",
+           "r.is_err() ==> final(self).rt.stack@ == old(self).rt.stack@", "final(self).rt.under_stack@ == old(self).rt.under_stack@"],
+  desc="pop_n(n): returns the top n in push order and removes exactly them (proved on the real body, any depth)")
+U(id="C11.e2.helper.truncate_stack", props=["C11", "C04"], kind="fn", file=RUN, impl=UIUAIMPL, impl_name="Uiua", fn="truncate_stack", name="truncate_stack_real",
+  target="impl Uiua", ret="r",
+  ensures=["final(self).rt.stack@ =~= old(self).rt.stack@.subrange(0, if size <= old(self).rt.stack@.len() { size as int } else { old(self).rt.stack@.len() as int })",
+           "final(self).rt.under_stack@ == old(self).rt.under_stack@"],
+  desc="truncate_stack(k): keeps exactly the first min(k, len) values (proved on the real body)")
+U(id="C04.e2.helper.under_stack_height", props=["C04"], kind="fn", file=RUN, impl=UIUAIMPL, impl_name="Uiua", fn="under_stack_height", name="under_stack_height_real",
+  target="impl Uiua", ret="r", ensures=["r == self.rt.under_stack@.len()"], desc="under_stack_height is the length of the context stack")
